@@ -56,12 +56,16 @@ let () =
          pseudo-random orders (seeded by the case id); what is compared is independent
          of them (theorems for index.json / reopening; generator restrictions for the
          AutoGC cascade and the referrer pass of GC) *)
-      let rs = ref (Hashtbl.hash id) in
+      let rs = ref ((try int_of_string (String.sub id 1 (String.length id - 1)) with _ -> 0) * 7919 + 17) in
       let rnd () = rs := (!rs * 1103515245 + 12345) land 0x3fffffff; (!rs lsr 8) land 0xffff in
-      let rlist k = List.init k (fun _ -> nat_of_int (rnd () mod 13)) in
+      let rec rlist k = if k = 0 then [] else let x = nat_of_int (rnd () mod 13) in x :: rlist (k - 1) in
+      let rec rlists n k = if n = 0 then [] else let x = rlist k in x :: rlists (n - 1) k in
+      let rec rpairs n = if n = 0 then [] else let a = rlist 5 in let b = rlist 5 in (a, b) :: rpairs (n - 1) in
+      (* evaluation order fixed by the lets: bin/props.d/C08.py replays the same stream *)
       let orders () =
-        { o_save1 = rlist 10; o_save2 = rlist 10; o_gc1 = rlist 10; o_gc2 = List.init 6 (fun _ -> rlist 10);
-          o_del = List.init 8 (fun _ -> (rlist 5, rlist 5)) } in
+        let a = rlist 10 in let b = rlist 10 in let c = rlist 10 in
+        let d = rlists 6 10 in let e = rpairs 8 in
+        { o_save1 = a; o_save2 = b; o_gc1 = c; o_gc2 = d; o_del = e } in
       let do_op o =
         let (s', r) = step nn mf succs subj sk fix_f2 fix_a fix_f1 cfg !st (o, orders ()) in
         st := s'; Buffer.add_string buf (" " ^ show_result r) in
